@@ -534,4 +534,7 @@ Section PQ.
     apply G. splitR; cbn; auto using new_pq_ok; constructor.
   Qed.
 
+  Theorem pclosed_rejects (q : pq) p v : pclosed q = true -> push q p v = (false, q).
+  Proof. intros H. unfold push. now rewrite H. Qed.
+
 End PQ.
